@@ -52,12 +52,12 @@ def query_bytes(kind: str) -> Tuple[bytes, int]:
 
 def grid(tier: str) -> List[Dict[str, Any]]:
     pts = []
-    offsets = OFFSETS if tier != "quick" else [1, 21, 119, 250, 401, 499, 999, 1199]
+    offsets = OFFSETS if tier == "quick" else sorted(set(OFFSETS) | set(range(1, 1300, 13)))
     modes = ["unregister", "unregister_all", "async_close", "sync_close"]
-    seconds = [None, -300, 60] if tier != "quick" else [None, -300]
-    jit = [0.0, 1.0] if tier == "quick" else [0.0, 0.5, 1.0]
+    seconds = [None, -300, 60]
+    jit = [0.0, 0.5, 1.0]
     for kind, d, j, shape, mode, second in itertools.product(KINDS, offsets, jit, SHAPES, modes, seconds):
-        if tier == "quick" and mode != "unregister" and (second is not None or d not in (21, 250, 499, 1199)):
+        if tier == "quick" and mode in ("async_close", "sync_close") and (second is not None or d not in (21, 250, 499, 1199)):
             continue
         pts.append({"kind": kind, "d": d, "jitter": j, "shape": shape, "mode": mode, "second": second})
     return pts
